@@ -1223,6 +1223,34 @@ func c06OracleTree(r *h.Result, c *c06TCase, rd *c06ReadResult) {
 		case rd.Svcs[i] != row.Svc:
 			V(t, "C06/zipkin-read-service-name", fmt.Sprintf("%s span %d is stored under service %q and read back under %q", fr, i, row.Svc, rd.Svcs[i]))
 		}
+		// events: the annotations of the text with a non-zero integer timestamp, in microseconds × 1000 (uint64)
+		if an := t.W.first("annotations"); t.W.count("annotations") <= 1 {
+			var want []string
+			if an != nil && an.Kind == 'a' {
+				for _, e := range an.Arr {
+					ts := e.first("timestamp")
+					if ts == nil || ts.Kind != 'n' || e.count("timestamp") > 1 || e.count("value") > 1 {
+						continue
+					}
+					u, err := strconv.ParseUint(ts.Raw, 10, 64)
+					if err != nil || u*1000 == 0 {
+						continue
+					}
+					val := ""
+					if v := e.first("value"); v != nil && v.Kind == 's' {
+						val = v.Str
+					}
+					want = append(want, strconv.FormatUint(u*1000, 10)+","+c06hex(val))
+				}
+			}
+			var have []string
+			for _, e := range got.Events {
+				have = append(have, strconv.FormatUint(e.GetTimeUnixNano(), 10)+","+c06hex(e.GetName()))
+			}
+			if strings.Join(want, ";") != strings.Join(have, ";") {
+				V(t, "C06/zipkin-read-events", fmt.Sprintf("%s span %d: annotations %v read back as events %v", fr, i, want, have))
+			}
+		}
 		// attributes: the string tags of the text (as the WRITER's library reads it) lead the attribute list, service.name ends it
 		ref := c06RefOf(t.W)
 		ok := len(got.Attributes) >= len(ref.RTags)+1
